@@ -41,6 +41,8 @@ BIN(outer,1,1,view::outer(a,b)) BIN(outer,2,1,view::outer(a,b)) BIN(outer,1,2,vi
 BIN(vecdot,1,1,view::vecdot(a,b)) BIN(vecdot,2,2,view::vecdot(a,b)) BIN(vecdot,2,1,view::vecdot(a,b)) BIN(vecdot,1,2,view::vecdot(a,b))
 #elif defined(R_TRACE)
 KERNEL int K(k_trace_2)(SIG1){ h_t<2> a; if (!mkd(a,sa,da)) return -1; return observe0(view::trace(a), idx, nidx, oshape, odim, out); }
+// trace with a run-time offset (diagonals above and below the main one)
+KERNEL int K(k_trace_2o)(const size_t* sa, const u8* da, int offset, const size_t* idx, size_t nidx, size_t* oshape, size_t* odim, u8* out){ h_t<2> a; if (!mkd(a,sa,da)) return -1; return observe0(view::trace(a, offset), idx, nidx, oshape, odim, out); }
 KERNEL int K(k_trace_3)(SIG1){ h_t<3> a; if (!mkd(a,sa,da)) return -1; return observe0(view::trace(a), idx, nidx, oshape, odim, out); }
 #elif defined(R_DOT)
 BIN(dot,1,1,view::dot(a,b)) BIN(dot,2,2,view::dot(a,b)) BIN(dot,2,1,view::dot(a,b)) BIN(dot,1,2,view::dot(a,b)) BIN(dot,1,3,view::dot(a,b)) BIN(dot,2,3,view::dot(a,b)) BIN(dot,3,2,view::dot(a,b))
